@@ -55,7 +55,7 @@ Profile GetProfile(const std::string& name, bool thorough) {
     p.gen.features |= F_POOLS | F_CONSOLE;
   } else if (name == "C07") {
     p.pm_interrupt = 350; p.pm_crash = 300; p.pm_torn = 150; p.pm_cmd_fail = 30;
-    p.multi_process_cmds = true;
+    p.multi_process_cmds = true; p.backdating_cmds = true;
     p.signal_at_syscall = true;
     p.enumerate_faults = thorough;
   } else if (name == "C16") {
@@ -245,6 +245,7 @@ struct Driver {
     if (prof.buggify && H(2) == 0) {
       p.fp.pm_eintr = 0; (void)H(3);  /* EINTR from read/waitpid cannot happen: ninja blocks its handled signals outside ppoll */ p.fp.pm_short_read = (int)H(3) * 100;
       p.fp.pm_spurious_wake = (int)H(3) * 30; p.fp.pm_eagain_token = (int)H(3) * 100;
+      p.fp.pm_slow_wake = p.fp.pm_short_read ? 80 : 0;   // (no draw of its own: rides on the short-read coin)
     }
     return p;
   }
